@@ -207,7 +207,9 @@ def run_cvc5(solver) -> str:
         smt = solver.to_smt2()
     except Exception:
         return "error"
-    smt = "(set-logic ALL)\n" + smt
+    # z3 prints our heap-array names (`H0|F:Class.field`) as |H0\|F:...|; cvc5 1.0 rejects a backslash inside a quoted
+    # symbol, so the separator is renamed for cvc5 (a pure renaming of uninterpreted symbols)
+    smt = "(set-logic ALL)\n" + smt.replace("\\|", "!")
     fd, path = tempfile.mkstemp(suffix=".smt2", prefix="pyvc_")
     try:
         with os.fdopen(fd, "w") as f:
